@@ -3,6 +3,9 @@ package props
 import (
 	"bytes"
 	"fmt"
+	"os"
+	"strconv"
+	"strings"
 
 	"gitlab.com/gomidi/midi/v2"
 	"gitlab.com/gomidi/midi/v2/smf"
@@ -305,7 +308,7 @@ func runC08(c *mon.Ctx) {
 			case 0:
 				b[2] &= 0x7F
 			case 1:
-				b[2] = byte(len(b) - 3) & 0x7F // consistent length
+				b[2] = byte(len(b)-3) & 0x7F // consistent length
 			case 2:
 				b[2] |= 0x80
 				b[3] &= 0x7F
@@ -433,6 +436,44 @@ func runC08(c *mon.Ctx) {
 			c.Eval(n - 1)
 		}
 	})
+	// text-like meta events whose declared length is the top of the 32-bit range (5-byte VLQs, values that
+	// wrap when an offset is added). The library allocates the declared length (4 GB of untouched memory
+	// per call, 1..16 s each here), so these run in the thorough tier only, in one worker, and only when
+	// the machine has the memory to spare.
+	if c.Thorough() {
+		c.Each("wrapping-text-lengths", 1, func(_ int64, r *mon.Rand) {
+			if avail := memAvailableGB(); avail < 24 {
+				c.Count("wrapping_length_skipped_low_memory", 1)
+				return
+			}
+			for _, typ := range []byte{0x01, 0x03, 0x05, 0x09} {
+				for _, ln := range [][]byte{{0x8F, 0xFF, 0xFF, 0xFF, 0x7F}, {0x8F, 0xFF, 0xFF, 0xFF, 0x7B}, {0xFF, 0xFF, 0xFF, 0xFF, 0x7D}} {
+					m := append(append([]byte{0xFF, typ}, ln...), 'a', 'b')
+					c.Count("cat:smf:"+classifySMF(c, m), 1)
+					c.Count("wrapping_length_messages", 1)
+					c.Count("strings_smf", 1)
+					c.DistinctBytes(m)
+				}
+			}
+		})
+	}
+}
+
+func memAvailableGB() int {
+	b, err := os.ReadFile("/proc/meminfo")
+	if err != nil {
+		return 0
+	}
+	for _, l := range strings.Split(string(b), "\n") {
+		if strings.HasPrefix(l, "MemAvailable:") {
+			f := strings.Fields(l)
+			if len(f) >= 2 {
+				kb, _ := strconv.Atoi(f[1])
+				return kb >> 20
+			}
+		}
+	}
+	return 0
 }
 
 // constructedSMFMessages returns the output of every Meta* constructor on a spread of arguments.
